@@ -260,6 +260,12 @@ func (c *sevalCtx) intOf(v ssa.Value, depth int) (int64, bool) {
 			return c.intOf(ph.Edges[k], depth+1)
 		}
 	}
+	// len of a constant string (an entry of a single-valued table)
+	if call, ok := sx.Unspill(v).(*ssa.Call); ok && isBuiltin(call, "len") {
+		if s, isS := sx.ConstString(sx.Unspill(call.Call.Args[0])); isS {
+			return int64(len(s)), true
+		}
+	}
 	return 0, false
 }
 
@@ -348,6 +354,12 @@ func (c *sevalCtx) eval(v ssa.Value, depth int) *sstr {
 		return unk("too deep")
 	}
 	v = sx.Unspill(v)
+	if _, isC := v.(*ssa.Const); !isC {
+		// an entry of a single-valued package-level table of constants (sx.ConstString)
+		if s, ok := sx.ConstString(v); ok {
+			return &sstr{kind: "const", s: s}
+		}
+	}
 	switch x := v.(type) {
 	case *ssa.Const:
 		if s, ok := sx.ConstString(x); ok {
